@@ -124,6 +124,7 @@ type Options struct {
 	FontConfig text.FontConfiguration // nil = LightFontConfig (or NewFontConfig when FreshFonts)
 	FreshFonts bool                   // private copy of the fontconfig configuration (needed with @font-face)
 	NoWrite    bool
+	NoLogHook  bool // do not install per-render log writers (concurrent renders: the loggers are process-wide)
 }
 
 type Result struct {
@@ -175,10 +176,12 @@ func bound(o *Options) *progressWriter {
 // guard it); an error is returned only when the HTML or a user sheet cannot be loaded.
 func Render(o Options) (*Result, error) {
 	pw, ww := bound(&o), &warnWriter{}
-	logger.ProgressLogger.SetOutput(pw)
-	logger.WarningLogger.SetOutput(ww)
-	defer logger.ProgressLogger.SetOutput(io.Discard)
-	defer logger.WarningLogger.SetOutput(io.Discard)
+	if !o.NoLogHook {
+		logger.ProgressLogger.SetOutput(pw)
+		logger.WarningLogger.SetOutput(ww)
+		defer logger.ProgressLogger.SetOutput(io.Discard)
+		defer logger.WarningLogger.SetOutput(io.Discard)
+	}
 	html, sheets, fontConfig, err := parse(&o)
 	if err != nil {
 		return nil, err
